@@ -92,6 +92,8 @@ func propC02(p *Prog, r *Report) {
 	c11Plumbing(p, r, "C02.e")
 	r.Rule("C02.f", "defaults: the registry answers the main (no-transaction) id with the ReadCommitted level, both clients use the caller's level and default to ReadCommitted, Begin registers a generated id with the requested level and a fresh snapshot point and returns the registry's error")
 	c02Defaults(p, r, "C02.f")
+	r.Rule("C02.g", "committed versions carry their commit stamp in memory (= C03.g): visibility is decided by the in-memory sequence numbers")
+	c03StampReachesPublished(p, r, "C02.g")
 }
 
 func c02Levels(p *Prog, r *Report) {
@@ -331,12 +333,24 @@ func c02Dispatch(p *Prog, r *Report) {
 		}
 	}
 	// per-store readers: LastBefore iff a snapshot point is given
-	for _, k := range []string{kGetFileFromTx, kGetFilesFromTx} {
-		fi := p.Func(k)
-		if fi == nil {
-			r.Undecided("C02.b", k, "", "not found")
+	for _, root := range []string{kGetFileFromTx, kGetFilesFromTx} {
+		if p.Func(root) == nil {
+			r.Undecided("C02.b", root, "", "not found")
 			continue
 		}
+		// the selection may live in a package-local helper of the reader
+		var fi *FuncInfo
+		for _, cand := range localClosure(p, root) {
+			cf := p.FlatOf(cand)
+			if len(cf.CallNodes(kFileLatest)) > 0 || len(cf.CallNodes(kLastBefore)) > 0 {
+				fi = cand
+			}
+		}
+		if fi == nil {
+			r.Viol("C02.b", root+"#reader-selection", p.pos(p.Func(root).Decl), "the store reader no longer selects a version with Latest / LastBefore")
+			continue
+		}
+		k := root
 		info := fi.Pkg.TypesInfo
 		var bsObj types.Object
 		for _, fld := range fi.Decl.Type.Params.List {
@@ -584,16 +598,26 @@ func c02Unlink(p *Prog, r *Report) {
 		}
 		// direct unlink: n.DeleteLink() in the body; or collected: slice = append(slice, n) and a deferred closure ranges the slice calling DeleteLink
 		collectors := map[types.Object]bool{}
+		// where the collector is drained: a deferred closure (node of the DeferStmt) or a loop in the body (node of its range expression)
+		drainDefer := map[types.Object][]ast.Node{}
+		drainBody := map[types.Object][]ast.Node{}
 		ast.Inspect(fi.Decl.Body, func(x ast.Node) bool {
-			ds, ok := x.(*ast.DeferStmt)
-			if !ok {
-				return true
+			// a loop (in a deferred closure or in the body) that ranges a slice and unlinks each element
+			var scope ast.Node = x
+			var deferStmt ast.Node
+			if _, isRange := x.(*ast.RangeStmt); !isRange {
+				deferStmt = x
+				ds, ok := x.(*ast.DeferStmt)
+				if !ok {
+					return true
+				}
+				lit, ok := ds.Call.Fun.(*ast.FuncLit)
+				if !ok {
+					return true
+				}
+				scope = lit.Body
 			}
-			lit, ok := ds.Call.Fun.(*ast.FuncLit)
-			if !ok {
-				return true
-			}
-			ast.Inspect(lit.Body, func(y ast.Node) bool {
+			ast.Inspect(scope, func(y ast.Node) bool {
 				rs, ok := y.(*ast.RangeStmt)
 				if !ok || rs.Value == nil {
 					return true
@@ -611,12 +635,31 @@ func c02Unlink(p *Prog, r *Report) {
 				if unlinks {
 					if o := objOf(info, rs.X); o != nil {
 						collectors[o] = true
+						if deferStmt != nil {
+							if _, isD := deferStmt.(*ast.DeferStmt); isD {
+								drainDefer[o] = append(drainDefer[o], deferStmt)
+							}
+						} else {
+							drainBody[o] = append(drainBody[o], rs.X)
+						}
 					}
 				}
 				return true
 			})
 			return true
 		})
+		// a collector drained by a body loop that sits inside a deferred closure is listed under both; the defer wins
+		for o := range drainDefer {
+			delete(drainBody, o)
+		}
+		nodeOf := func(a ast.Node) int {
+			for _, n := range f.Nodes {
+				if n.Ast == a {
+					return n.ID
+				}
+			}
+			return -1
+		}
 		handled := f.Match(func(n *GNode) bool {
 			for _, c := range callsIn(n.Ast, false) {
 				if p.callIs(fi.Pkg, c, kNodeDeleteLink) {
@@ -626,11 +669,35 @@ func c02Unlink(p *Prog, r *Report) {
 				}
 			}
 			if as, ok := n.Ast.(*ast.AssignStmt); ok && len(as.Lhs) == 1 && len(as.Rhs) == 1 && collectors[objOf(info, as.Lhs[0])] {
+				co := objOf(info, as.Lhs[0])
 				if c, ok := ast.Unparen(as.Rhs[0]).(*ast.CallExpr); ok {
 					if id, ok := c.Fun.(*ast.Ident); ok && id.Name == "append" {
 						for _, a := range c.Args[1:] {
-							if popVars[objOf(info, a)] {
-								return true
+							if !popVars[objOf(info, a)] {
+								continue
+							}
+							// collected: counts only if the collector is certainly drained afterwards
+							for _, d := range drainDefer[co] {
+								if dn := nodeOf(d); dn >= 0 && f.MustPrecede(setOf([]int{dn}), n.ID) {
+									return true
+								}
+							}
+							for _, d := range drainBody[co] {
+								dn := nodeOf(d)
+								if dn < 0 {
+									continue
+								}
+								// every exit reachable from the append passes the draining loop
+								reach := f.Reach(f.succsOf(n.ID), func(x *GNode) bool { return x.ID == dn }, nil)
+								okAll := true
+								for _, e := range f.Exits() {
+									if reach[e] {
+										okAll = false
+									}
+								}
+								if okAll {
+									return true
+								}
 							}
 						}
 					}
